@@ -55,6 +55,26 @@ type VC struct {
 	Abstracted []string // notes: what the translation abstracts for this function
 	heapVarSorts map[string]Sort
 	constVars    map[string]bool // heap variables of fields declared const: never havocked by frames
+	axioms       []axiomDef
+}
+
+type axiomDef struct {
+	text string
+	syms []string
+}
+
+// relevantAxioms: the axioms whose uninterpreted symbols occur in the given query text.
+func (vc *VC) relevantAxioms(body string) string {
+	var b strings.Builder
+	for _, ax := range vc.axioms {
+		for _, s := range ax.syms {
+			if strings.Contains(body, "("+s+" ") {
+				b.WriteString("(assert " + ax.text + ")\n")
+				break
+			}
+		}
+	}
+	return b.String()
 }
 
 func NewVC(fn string) *VC {
@@ -167,7 +187,15 @@ func (vc *VC) Prelude() string {
 // Query builds the SMT-LIB text that is unsat iff the obligation holds.
 func (vc *VC) Query(o *Obligation) string {
 	var b strings.Builder
-	b.WriteString(vc.Prelude())
+	pre := vc.Prelude()
+	b.WriteString(pre)
+	var relText strings.Builder
+	relText.WriteString(pre)
+	for _, a := range vc.assumes[:o.NAssumes] {
+		relText.WriteString(a.Formula)
+	}
+	relText.WriteString(o.Goal)
+	b.WriteString(vc.relevantAxioms(relText.String()))
 	for _, a := range vc.assumes[:o.NAssumes] {
 		b.WriteString("(assert " + Imp(a.Guard, a.Formula) + ")")
 		if a.Note != "" {
@@ -276,7 +304,14 @@ func skolemizeGoal(goal string) (string, string) {
 // CoverQuery: satisfiable iff the program point is reachable under the assumptions (vacuity guard).
 func (vc *VC) CoverQuery(guard string, nAssumes int) string {
 	var b strings.Builder
-	b.WriteString(vc.Prelude())
+	pre := vc.Prelude()
+	b.WriteString(pre)
+	var body strings.Builder
+	body.WriteString(pre)
+	for _, a := range vc.assumes[:nAssumes] {
+		body.WriteString(a.Formula)
+	}
+	b.WriteString(vc.relevantAxioms(body.String()))
 	for _, a := range vc.assumes[:nAssumes] {
 		b.WriteString("(assert " + Imp(a.Guard, a.Formula) + ")\n")
 	}
